@@ -16,6 +16,9 @@ DIAG = re.compile(r"^core::fmt::|^std::io::stdio::_e?print$|^alloc::fmt::format|
                   r"^<.* as core::fmt::(Display|Debug)>::fmt$")
 
 
+PLAIN = re.compile(r"^(u8|u16|u32|u64|u128|usize|i8|i16|i32|i64|i128|isize|bool|f64|f32|std::time::\w+|core::time::Duration)$")
+
+
 def owner_of(P, f):
     while f.kind == "Closure" and f.parent_key in P.fns:
         f = P.fns[f.parent_key]
@@ -129,8 +132,17 @@ def inert_fields(P, adt_name, reach):
     flds = struct_fields(P, adt_name)
     inert = set()
     ms = [m for m in methods_of(P, adt_name, reach) if m.kind != "Closure"]
+    def plain(ty, depth=2):
+        """a counter-like type: a number / bool / time, or a local struct made of such (a statistics record)"""
+        if PLAIN.match(ty):
+            return True
+        a = P.adts.get(ty)
+        if a is None or depth == 0:
+            return False
+        return all(plain(fl["ty"], depth - 1) for v in a["variants"] for fl in v["fields"])
+
     for name, ty in flds.items():
-        if not re.match(r"^(u8|u16|u32|u64|u128|usize|i8|i16|i32|i64|i128|isize|bool|f64|f32|std::time::\w+|core::time::Duration)$", ty):
+        if not plain(ty):
             continue
         ok = True
         for m in ms:
